@@ -10,6 +10,7 @@ Necessary conditions decided (DESIGN.md section 6, C02):
              its growth refusal before allocating; Silf::runGraphite keeps the post-pass size test
   CONST      array extents equal the limits used to index them
   RECURSION  depth cut-offs dominate the recursive calls, which pass depth + 1
+  CMAPBOUND  (shared with C13) the cached cmap indexes its block table only under the bounds matching its allocation
   LOOPLIMIT  the per-pass loop counter is consulted on the advance path and forced >= 1 at load
 """
 import re
@@ -27,7 +28,7 @@ EXPLANATION = ('Static path/dominance/who-may-call rules over the CFG facts of t
                'Each is a necessary condition of memory safety / bounded work for every accepted font and text; absence of '
                'out-of-bounds access in float-derived collision indexing and the numeric work bound are NOT decided.')
 FLOORS = {'VMSTACK': 60, 'STACKMODEL': 30, 'PARAMSZ': 55, 'DIVGUARD': 1, 'NOSIGNEDOVF': 50, 'SLOTREF': 20,
-          'USERATTR': 2, 'GROWTH': 9, 'CONST': 7, 'RECURSION': 5, 'LOOPLIMIT': 4}
+          'USERATTR': 2, 'GROWTH': 9, 'CONST': 7, 'RECURSION': 5, 'LOOPLIMIT': 4, 'CMAPBOUND': 4}
 
 
 # ------------------------------------------------------------------------------------------ SLOTREF
@@ -536,4 +537,6 @@ def run(run):
     const_(run, vm)
     recursion(run, fx)
     looplimit(run, fx)
+    from . import c13
+    c13.cmapbound(run, fx)
     run.assume('allocation failure is outside the quantifier (inputs, programs): null returns of the allocators are exempt exits')
